@@ -94,3 +94,34 @@ Proof.
   - vm_compute. reflexivity.
   - vm_compute. reflexivity.
 Qed.
+
+(* ---------- a diamond (a general DAG): the premises of the shutdown theorem hold, and the caller notices ---------- *)
+(* s -> a, s -> b, c(a, b) = target; threads 0 s, 1 a, 2 b, 3 c, 4 the caller; stage b fails at chunk 1 *)
+Definition dia_boxes : list mbox :=
+  [mk_mbox 1 false [true; true]; mk_mbox 1 false [true]; mk_mbox 1 false [true]; mk_mbox 1 false [true]].
+Definition dia_threads : list thread :=
+  [mk_thread (KStage 2 0) []; mk_thread (KStage 2 1) [(0, 0)]; mk_thread (KStage 2 2) [(0, 1)];
+   mk_thread (KStage 2 3) [(1, 0); (2, 0)]; mk_thread (KMain false) [(3, 0)]].
+Definition dia_net : net := mkNet (Some (2, 1, boom)) None [0; 1; 2; 3] [0; 1; 2; 3] [] true true true.
+Example dia_premises :
+  cover_b dia_net (mkSt dia_boxes dia_threads) 4 = true /\ init_ok_b dia_boxes dia_threads = true.
+Proof. vm_compute. split; reflexivity. Qed.
+
+Fixpoint run_sched (nt : net) (st : nstate) (fuel : nat) (order : list nat) (acc : list nat) : nstate * list nat :=
+  match fuel with
+  | O => (st, rev acc)
+  | S f =>
+      match find (fun t => nenabled nt st t) order with
+      | Some t => match nstep nt st t with Some st' => run_sched nt st' f order (t :: acc) | None => (st, rev acc) end
+      | None => (st, rev acc)
+      end
+  end.
+Definition dia_run := run_sched dia_net (ninit dia_net dia_boxes dia_threads) 200 [4; 3; 2; 1; 0] [].
+Example dia_noticed_and_shut_down :
+  nrun dia_net (ninit dia_net dia_boxes dia_threads) (snd dia_run) = Some (fst dia_run) /\
+  main_outcome (fst dia_run) 4 = Some (OErr (EOrig boom)) /\ all_terminal (fst dia_run) = true /\
+  quiescent dia_net (fst dia_run).
+Proof.
+  split; [vm_compute; reflexivity|]. split; [vm_compute; reflexivity|]. split; [vm_compute; reflexivity|].
+  apply quiescent_dec. vm_compute. reflexivity.
+Qed.
